@@ -62,7 +62,12 @@ class SimFS(FS):
             is_dir = False
         else:
             raise fs.errors.ResourceNotFound(path)
-        return Info({"basic": {"name": posixpath.basename(p), "is_dir": is_dir}})
+        raw = {"basic": {"name": posixpath.basename(p), "is_dir": is_dir}}
+        if namespaces and "details" in namespaces:
+            raw["details"] = {"size": 0 if is_dir else len(d.files[p]),
+                              "type": 1 if is_dir else 2, "modified": 0, "created": 0,
+                              "accessed": 0, "metadata_changed": 0}
+        return Info(raw)
 
     def listdir(self, path):
         p = self._p(path)
@@ -145,10 +150,14 @@ class SimFS(FS):
 
 
 class _StatResult:
-    def __init__(self, mode):
+    def __init__(self, mode, size=0):
         self.st_mode = mode
-        self.st_size = 0
-        self.st_mtime = 0
+        self.st_size = size
+        self.st_mtime = self.st_atime = self.st_ctime = 0
+        self.st_mtime_ns = self.st_atime_ns = self.st_ctime_ns = 0
+        self.st_uid = self.st_gid = 0
+        self.st_ino = self.st_dev = 0
+        self.st_nlink = 1
 
 
 # Every path the native facade hands to the library lives under this prefix, so that a
@@ -183,7 +192,8 @@ def _sim_path(path):
 
 _REAL = {
     "listdir": _real_os.listdir, "scandir": _real_os.scandir, "stat": _real_os.stat, "lstat": _real_os.lstat,
-    "mkdir": _real_os.mkdir, "rmdir": _real_os.rmdir,
+    "mkdir": _real_os.mkdir, "rmdir": _real_os.rmdir, "chmod": _real_os.chmod, "utime": _real_os.utime,
+    "chown": _real_os.chown, "access": _real_os.access, "listxattr": _real_os.listxattr,
     "remove": _real_os.remove, "unlink": _real_os.unlink, "rename": _real_os.rename,
     "replace": _real_os.replace, "readlink": _real_os.readlink, "io_open": io.open,
     "exists": posixpath.exists, "lexists": posixpath.lexists, "isfile": posixpath.isfile,
@@ -332,7 +342,7 @@ class _ShimOS:
         if p in d.dirs:
             return _StatResult(_stat.S_IFDIR | 0o755)
         if p in d.files:
-            return _StatResult(_stat.S_IFREG | 0o644)
+            return _StatResult(_stat.S_IFREG | 0o644, len(d.files[p]))
         raise FileNotFoundError(errno.ENOENT, "No such file or directory", path)
 
     def lstat(self, path, *a, **kw):
@@ -361,6 +371,40 @@ class _ShimOS:
 
     def unlink(self, path, *a, **kw):
         return self.remove(path, *a, **kw)
+
+    def _exists_or_raise(self, path):
+        sp = _sim_path(path)
+        p = self._disk.norm(sp)
+        self._disk.call(STAT, p)
+        if p not in self._disk.files and p not in self._disk.dirs:
+            raise FileNotFoundError(errno.ENOENT, "No such file or directory", path)
+
+    def chmod(self, path, mode, *a, **kw):
+        if isinstance(path, int) or _sim_path(path) is None:
+            return _REAL["chmod"](path, mode, *a, **kw)
+        self._exists_or_raise(path)         # permissions are not modelled
+
+    def utime(self, path, *a, **kw):
+        if isinstance(path, int) or _sim_path(path) is None:
+            return _REAL["utime"](path, *a, **kw)
+        self._exists_or_raise(path)         # timestamps are not modelled
+
+    def chown(self, path, *a, **kw):
+        if isinstance(path, int) or _sim_path(path) is None:
+            return _REAL["chown"](path, *a, **kw)
+        self._exists_or_raise(path)
+
+    def listxattr(self, path=None, *a, **kw):
+        if path is None or isinstance(path, int) or _sim_path(path) is None:
+            return _REAL["listxattr"](path, *a, **kw)
+        return []
+
+    def access(self, path, mode, *a, **kw):
+        sp = _sim_path(path)
+        if sp is None:
+            return _REAL["access"](path, mode, *a, **kw)
+        p = self._disk.norm(sp)
+        return p in self._disk.files or p in self._disk.dirs
 
     def mkdir(self, path, mode=0o777, *a, **kw):
         sp = _sim_path(path)
@@ -479,6 +523,9 @@ class NativeShim:
                 (_real_os, "unlink", shim_os.unlink), (_real_os, "rename", shim_os.rename),
                 (_real_os, "replace", shim_os.replace), (_real_os, "readlink", shim_os.readlink),
                 (_real_os, "mkdir", shim_os.mkdir), (_real_os, "rmdir", shim_os.rmdir),
+                (_real_os, "chmod", shim_os.chmod), (_real_os, "utime", shim_os.utime),
+                (_real_os, "chown", shim_os.chown), (_real_os, "access", shim_os.access),
+                (_real_os, "listxattr", shim_os.listxattr),
                 (io, "open", shim_io.open),
                 (builtins, "open", shim_io.open),
                 (posixpath, "exists", shim_os.path.exists), (posixpath, "lexists", shim_os.path.lexists),
